@@ -412,6 +412,18 @@ func (e *env) permTargeted(r *gen.Rng, s permStmt, honest any) {
 		p.G = e.F.Exp(w, int64(k))
 		try(fmt.Sprintf("generator/replaced-in-honest-proof/%s", genClass(k, n)), p, nil, fmt.Sprintf("g=w^%d", k))
 	}
+	// 6b'. the honest proof relabelled as a statement of size 1 with generator 1 (the trivial domain): the algebraic
+	// relation and the openings still have to hold for that size
+	if n >= 2 {
+		p := cpP(base.P)
+		p.Size, p.G = 1, big.NewInt(1)
+		try("size-and-generator-relabelled-to-the-trivial-domain", p, nil, "size=1 g=1")
+		p = cpP(base.P)
+		p.Size, p.G = 2, new(big.Int).Sub(e.F.P, big.NewInt(1))
+		if n != 2 {
+			try("size-and-generator-relabelled-to-size-2", p, nil, "size=2 g=-1")
+		}
+	}
 	// 6c. another primitive n-th root, proof consistent with it: a valid proof of the true statement -> accepted
 	if n >= 4 {
 		k := 3
